@@ -236,12 +236,41 @@ theorem memoryFullInfo_safe : Tri (PsOnly p) (Plat.memoryFullInfo (goodCfg r) p)
     exact tri_bind (tri_tryCatch_same (parseSmapsRollup_safe ⟨true, le⟩ p) (inner (parseSmaps_safe ⟨true, le⟩ p)))
       (fun _ _ => inner (memoryInfo_safe ⟨true, le⟩ p))
 
+/-- `path_exists_strict` on a mapping's backing path (a file outside procfs): whatever os.stat answers, only the
+    PermissionError of a refused access leaves the helper — which `wrap_exceptions` may see (`ExcOK`) -/
+theorem pathExistsStrict_safe (i : Nat) :
+    Tri (ExcOK p) (Plat.pathExistsStrict (goodCfg r) p i) (fun _ => True) := by
+  unfold Plat.pathExistsStrict accStatMap
+  refine tri_tryCatch (E' := OsOnly)
+    (tri_bind (tri_access_os _ _ (fun _ => True) (fun _ _ _ _ => trivial)) (fun _ _ => tri_pure trivial)) ?_ ?_
+  · intro e he c k ho
+    rcases ho with h | h | h <;> subst h <;> simp [goodCfg, catches, PyExc.bases] at he
+  · intro e m' he ho
+    obtain ⟨c, k, ho⟩ := ho
+    rcases ho with h | h | h <;> subst h <;> simp [goodCfg, catches, PyExc.bases] at he <;> subst he
+    · exact tri_pure trivial
+    · exact tri_pure trivial
+    · exact tri_throw (fun _ _ => by simp [ExcOK])
+
+/-- the per-mapping loop of memory_maps(): ANY number of mappings of any kinds -/
+theorem mapsLoop_safe : ∀ (ks : List MapKind) (i n : Nat),
+    Tri (ExcOK p) (Plat.mapsLoop (goodCfg r) p ks i n) (fun _ => True)
+  | [], _, _ => by unfold Plat.mapsLoop; exact tri_pure trivial
+  | .anon :: ks, i, n => by unfold Plat.mapsLoop; exact mapsLoop_safe ks _ _
+  | .file :: ks, i, n => by unfold Plat.mapsLoop; exact mapsLoop_safe ks _ _
+  | .deleted _ :: ks, i, n => by
+    unfold Plat.mapsLoop
+    exact tri_bind (pathExistsStrict_safe r p i) (fun _ _ => mapsLoop_safe ks _ _)
+
+theorem tri_askMaps {E : Ctx → Nat → PyExc → Prop} : Tri E (Plat.askMaps p) (fun _ => True) := by
+  intro c s _ hi; exact ⟨trivial, hi⟩
+
 theorem memoryMaps_safe : Tri (PsOnly p) (Plat.memoryMaps (goodCfg r) p) (fun _ => True) := by
   unfold Plat.memoryMaps
   refine W_safe r _ p (by rfl) (tri_bind (inner (readSmapsFile_safe r p)) (fun x _ => ?_))
   split
   · exact tri_bind (tri_raiseIfZombie r p (fun _ _ => by simp [ExcOK])) (fun _ _ => tri_pure trivial)
-  · exact tri_pure trivial
+  · exact tri_bind (tri_askMaps p) (fun ms _ => mapsLoop_safe r p ms 0 0)
 
 /-! ### native calls, num_fds -/
 
